@@ -12,6 +12,7 @@ Decided entirely from compile-time facts:
 """
 from vlib import facts, rules, typeclosure, witness
 from vlib.report import Run
+from vlib import controls
 
 PUBLIC_VALUE_TYPES = ["crate::arena::Arena", "crate::node::Node", "crate::id::NodeId"]
 
@@ -116,6 +117,7 @@ def main(tier):
     run.floor("E3 doc-test witnesses run", len(w["tests"]), 16)
     run.floor("E3 generic assertions", ngen, 44)
     run.extra["witness"] = {"passed": w["passed"], "failed": w["failed"], "generic_assertions": ngen, "compile_fail": nneg}
+    controls.selftest(run, ['unsafe block', 'unsafe impl', 'unsafe trait', 'static item', 'thread-local access', 'interior mutability in a field', 'raw pointer in a field'])
     run.assumptions += ["rayon's slice par_iter visits each element once and only reads (trusted)",
                         "payload type T's own Send/Sync impls are honest (unsafe impls are the user's obligation)"]
     return run.finish()
